@@ -95,7 +95,7 @@ def run(func, client, max_states=MAX_STATES):
             continue
         succs = b['s']
         tk = b.get('tk')
-        cond = func.node(b['cond']) if b.get('cond', -1) is not None and b.get('cond', -1) >= 0 else None
+        cond = effective_cond(func, b)
         if len(succs) == 2 and tk in ('IfStmt', 'WhileStmt', 'ForStmt', 'DoStmt', 'ConditionalOperator',
                                       'BinaryOperator', 'CXXForRangeStmt', 'BinaryConditionalOperator') and cond is not None:
             for s in states:
@@ -123,6 +123,28 @@ def run(func, client, max_states=MAX_STATES):
                     push(sb, s, key)
     res.nstates = len(seen)
     return res
+
+
+def effective_cond(func, b):
+    """the expression whose value decides a two-way terminator.  For `if (A || (B && C))` clang gives the
+    last block the WHOLE condition as terminator condition although only its last operand is evaluated
+    there: descend to the right-most operand of logical operators."""
+    ci = b.get('cond', -1)
+    if ci is None or ci < 0:
+        return None
+    c = func.node(ci)
+    if c is None:
+        return None
+    if b.get('tk') in ('BinaryOperator',):
+        return c                      # short-circuit block: cond already is the left operand
+    while True:
+        x = c
+        while x is not None and x['k'] in ('ParenExpr', 'ImplicitCastExpr', 'ExprWithCleanups') and x.get('c'):
+            x = x['c'][0]
+        if x is not None and x['k'] == 'BinaryOperator' and x.get('op') in ('&&', '||'):
+            c = kids(x)[1]
+            continue
+        return c
 
 
 def _as_list(x):
